@@ -23,6 +23,15 @@ theorem hc_parser_emits_only_verified_matches (data : List UInt8) (o : HC.Oracle
     ∀ e ∈ (HC.run o mflimit n (.main 0 0)).2, HC.EmitOK data e :=
   HC.hashChain_emits_ok data o hO mflimit n
 
+/-- **every HC level, as a checked certificate**: whatever parser chose them (lz4mid at levels 1-2, the hash-chain parser, the optimal parser at 10-12), if
+    the sequences handed to `LZ4HC_encodeSequence` start one after the other from the start of the block and each is a byte-verified match of length ≥ 4
+    inside `hist ++ block`, then the block made of them and of the remaining literals decodes to its source.  The judge evaluates both premises
+    (`HC.chainB`, the executable `VMatch`) on the sequences logged from the real parsers and compares the real block with this serialisation. -/
+theorem hc_any_level_certificate (hist block : List UInt8) (es : List HC.Emit) (a' : Nat) (hc : HC.chainB hist.length es = some a')
+    (hok : ∀ e ∈ es, HC.EmitOK (hist ++ block) e) :
+    decode hist (serialize (es.map (HC.toSeq (hist ++ block))) ((hist ++ block).drop a')) = some block :=
+  HC.chained_verified_sequences_decode hist block es a' (HC.chainB_sound es _ _ hc) hok
+
 /-- non-vacuity: the oracle that never finds anything honours the contract, and the model then stores the input as literals -/
 example (data : List UInt8) : HC.OracleOK data { best := fun _ => ⟨0, 0⟩, wider := fun s _ _ => (s, ⟨0, 0⟩) } :=
   ⟨fun ip h => by simp at h, fun s l g h => by simp at h⟩
